@@ -2,6 +2,8 @@ package codecav1vp
 
 import (
 	"encoding/json"
+	"fmt"
+	"time"
 
 	"verifharness/corr"
 	cu "verifharness/dom/codecutil"
@@ -27,14 +29,23 @@ func Run(c *corr.Ctx) {
 		}
 		return
 	}
+	t0 := time.Now()
+	lap := func(what string) {
+		c.Note(fmt.Sprintf("codec_av1vp phase %s: %.1fs (generation + real code; the oracle runs at flush)", what, time.Since(t0).Seconds()))
+		t0 = time.Now()
+	}
 	av1Corpus(c)
+	lap("corpus")
 	sweeps(c)
+	lap("sweeps")
 	if c.Want("C03") || c.Want("C06") {
-		vp9HeaderCases(c, c.N(300, 20000))
+		vp9HeaderCases(c, c.N(300, 5000))
 	}
 	growCases(c)
+	lap("vp9-header + grow")
 	for _, s := range specs {
-		hostileStats(c, s, c.N(150, 15000))
+		hostileStats(c, s, c.N(150, 5000))
 		cu.RunAll(c, s)
+		lap("generic " + s.Name)
 	}
 }
